@@ -137,10 +137,12 @@ func garbageCase(c *ev.Case) {
 		return
 	}
 	c.Logf("Decrypt%s -> %s, %s  [reference: %s]", comboStr(combo, false), q(got), errStr(err), refVerdict(refPT, refBad))
-	if !loose {
+	if loose == "" {
 		if !judgeCBC(c, lz("Decrypt%s", comboStr(combo, false)), lz("%s input %s (secret %s)", how, q(x), q(s)), got, err, refPT, refBad) {
 			return
 		}
+	} else if !judgeLooseCBC(c, lz("Decrypt%s", comboStr(combo, false)), lz("%s input %s (secret %s)", how, q(x), q(s)), got, err, refPT, refBad, loose) {
+		return
 	}
 	// SaltBySecretCBCDecrypt on the bytes themselves
 	refPT, refBad = refOpenRaw(x, s)
